@@ -1130,26 +1130,10 @@ def _obviously_different(a: HplExpression, b: HplExpression) -> bool:
         return True
     if isinstance(a, HplBinaryOperator):
         op: BinaryOperatorDefinition = a.operator
-        assert not isinstance(a.operand1, HplLiteral)  # due to simplification
         if op.is_plus or op.is_minus:
             if a.operand1 == b and isinstance(a.operand2, HplLiteral):
-                assert a.operand2.value != 0  # due to simplification
-                return True
-        if op.is_times:
-            if a.operand1 == b and isinstance(a.operand2, HplLiteral):
-                assert a.operand2.value != 0  # due to simplification
-                assert a.operand2.value != 1  # due to simplification
-                return True
-        if op.is_division:
-            if a.operand1 == b and isinstance(a.operand2, HplLiteral):
-                assert a.operand2.value != 0  # due to simplification
-                assert a.operand2.value != 1  # due to simplification
-                return True
-        if op.is_power:
-            if a.operand1 == b and isinstance(a.operand2, HplLiteral):
-                assert a.operand2.value != 0  # due to simplification
-                assert a.operand2.value != 1  # due to simplification
-                return True
+                return a.operand2.value != 0
+        # x * c, x / c and x ** c are equal to x when x is 0 (or 1)
     return False
 
 
